@@ -132,3 +132,12 @@ Proof.
     split; [intros [-> ->]; reflexivity | intros E; injection E as -> ->; split; reflexivity]. }
   subst. exact Hin.
 Qed.
+
+(* odes_matching_loop / odes_partner_unique on the 3-cycle with outputs and inputs: hypotheses hold, the loop
+   result has the three flows and the remaining equations are (output term, input term) *)
+Example ex_matching_loop :
+  let g := shape_graph (mkShape 3 [(0, 1); (1, 2); (2, 0)] [0; 2] [1] [0]) in
+  wf_graph g = true /\ linear_distinct g = true /\ length (order g) = 3 /\
+  length (filter (fun tr : triple => t_pos (snd tr)) (triples (terms_of g))) = 3 /\
+  map (@length term) (fold_left (nstep (terms_of g)) (triples (terms_of g)) (terms_of g)) = [1; 1; 1].
+Proof. repeat split; vm_compute; reflexivity. Qed.
